@@ -196,7 +196,28 @@ func (cy *c10Cycle) line(r *Rand, n int) string {
 	if n <= len(pre) {
 		n = len(pre) + 1
 	}
+	if r.Chance(50) {
+		// multi-byte UTF-8 text: the charge is per BYTE on the wire, not per character
+		runes := []string{"\u00e9", "\u20ac", "\U0001F600", "\u0416", "x"}
+		b := pre
+		for len(b) < n {
+			b += runes[r.Intn(len(runes))]
+		}
+		return b
+	}
 	return pre + string(r.Bytes(n-len(pre), []byte("abcdefghijklmnopqrstuvwxyz0123456789 ")))
+}
+
+// reconnect case: kind "burst" with flag "r<K>": Flood off; lines 0..K-1 are submitted on the
+// first connection and all arrive (none is held: the accumulated charge stays below 10 s), then
+// the client is closed and connected again at once; entries K and K+1 of the length list stand
+// for the NICK and USER the client itself sends on the second connection, the rest is
+// submitted there.  The penalty belongs to the client, not to the connection: the lines of the
+// second connection are held exactly as if the first had never ended (window oracle over the
+// whole wire history).
+func c10ReconnCase(r *Rand) Fields {
+	a, b, c := r.Range(40, 70), r.Range(40, 70), r.Range(40, 70)
+	return F("burst", "r2", a, 0, b, 0, 9, 0, 24, 0, c, 0)
 }
 
 // fresh case: 3 or 4 lines of 30..60 bytes; with NICK (9 bytes) and USER (24) the accumulated
@@ -262,6 +283,21 @@ func c10Gen(r *Rand, tier string, scale int, emit func(Fields)) {
 			close(fut.done)
 		}(h, fut)
 	}
+	nrc := 1
+	if tier == "thorough" {
+		nrc = 3
+	}
+	var reconns []Fields
+	for k := 0; k < nrc; k++ {
+		rc := c10ReconnCase(r)
+		reconns = append(reconns, rc)
+		fut := &c10Future{done: make(chan struct{})}
+		c10memo.Store(rc.String(), fut)
+		go func(b Fields, fut *c10Future) {
+			fut.obs = c10RunBurst(b)
+			close(fut.done)
+		}(rc, fut)
+	}
 	if tier == "thorough" {
 		for k := 0; k < 12; k++ {
 			bursts = append(bursts, c10BurstCase(r, false, false))
@@ -287,6 +323,9 @@ func c10Gen(r *Rand, tier string, scale int, emit func(Fields)) {
 		emit(c10RuleCase(r))
 	}
 	for _, b := range bursts {
+		emit(b)
+	}
+	for _, b := range reconns {
 		emit(b)
 	}
 	for _, h := range holds {
@@ -494,9 +533,14 @@ func c10RunBurst(in Fields) Fields {
 	case <-time.After(10 * time.Second):
 		return F(0)
 	}
+	reconnAt := -1
+	if strings.HasPrefix(in.S(1), "r") {
+		fmt.Sscanf(in.S(1)[1:], "%d", &reconnAt)
+	}
 	var mu sync.Mutex
 	var recs []c10rec
-	go func() { // server end: read promptly, stamp each line with the time its CRLF arrived
+	var reader func(srv net.Conn)
+	reader = func(srv net.Conn) { // server end: read promptly, stamp each line with the time its CRLF arrived
 		buf := make([]byte, 65536)
 		var pend []byte
 		for {
@@ -517,7 +561,8 @@ func c10RunBurst(in Fields) Fields {
 				return
 			}
 		}
-	}()
+	}
+	go reader(srv)
 	count := func() int { mu.Lock(); defer mu.Unlock(); return len(recs) }
 	waitFor := func(n int, d time.Duration) {
 		dl := time.Now().Add(d)
@@ -534,12 +579,39 @@ func c10RunBurst(in Fields) Fields {
 	submit := make([]int64, len(lens))
 	var total int64
 	for k, l := range lens {
+		if k == reconnAt {
+			// everything submitted so far has arrived (nothing is lost by closing); close and
+			// connect again at once; the client sends entries k and k+1 (NICK, USER) itself
+			waitFor(nreg+k, time.Duration(total)+20*time.Second)
+			cdone := make(chan struct{})
+			go func() { c.Close(); close(cdone) }()
+			select {
+			case <-cdone:
+			case <-time.After(10 * time.Second):
+			}
+			srv.Close()
+			go func() { errc <- c.Connect() }()
+			select {
+			case srv = <-ms.Conns:
+			case <-time.After(10 * time.Second):
+				return F(0)
+			}
+			go reader(srv)
+			select {
+			case <-errc:
+			case <-time.After(10 * time.Second):
+			}
+		}
+		total += c10Linetime(int64(l)) + int64(pauses[k])*1000000
+		if reconnAt >= 0 && (k == reconnAt || k == reconnAt+1) {
+			submit[k] = -1
+			continue
+		}
 		if pauses[k] > 0 {
 			time.Sleep(time.Duration(pauses[k]) * time.Millisecond)
 		}
-		total += c10Linetime(int64(l)) + int64(pauses[k])*1000000
 		submit[k] = int64(time.Since(created))
-		c.Raw(strings.Repeat("x", l))
+		c.Raw(c10Filler(k, l))
 	}
 	waitFor(nreg+len(lens), time.Duration(total)+20*time.Second)
 	mu.Lock()
@@ -556,12 +628,21 @@ func c10RunBurst(in Fields) Fields {
 	xs = append(xs, nreg)
 	for i, rc := range got {
 		q := rc.t
-		if i >= nreg && i-nreg < len(submit) {
+		if i >= nreg && i-nreg < len(submit) && submit[i-nreg] >= 0 {
 			q = submit[i-nreg]
 		}
 		xs = append(xs, rc.n, rc.t, q)
 	}
 	return F(xs...)
+}
+
+// c10Filler: l bytes of content; every second line of a burst is multi-byte UTF-8 text
+// (3-byte characters, padded to the exact byte length)
+func c10Filler(k, l int) string {
+	if k%2 == 0 {
+		return strings.Repeat("x", l)
+	}
+	return strings.Repeat("\u20ac", l/3) + strings.Repeat("x", l%3)
 }
 
 func c10Class(in Fields) string {
@@ -581,6 +662,9 @@ func c10Class(in Fields) string {
 	if in.S(0) == "burst" {
 		if in.S(1) == "t" {
 			return "burst:flood-on"
+		}
+		if strings.HasPrefix(in.S(1), "r") {
+			return "burst:flood-off:reconnect"
 		}
 		return fmt.Sprintf("burst:flood-off:%d-lines", (len(in)-2)/2)
 	}
